@@ -118,7 +118,10 @@ CHECKS["C12"] = dict(
     text=("20 Lean theorems about the MultiValueTracker model for every update-dict history and both base kinds: per-key tracker = fold of "
           "the base update over the zero-filled series since first appearance (closed forms via C10), keys never dropped (prefix), no "
           "duplicate keys, N = number of updates, normalised view (single key raw, zero sum all zeros, otherwise sums to one and "
-          "preserves ratios). Tied to multi_value.py by exact-arithmetic correspondence; numeric-type sweep for the NaN clause."),
+          "preserves ratios). Tied to multi_value.py by exact-arithmetic correspondence; numeric-type sweep for the NaN clause. Additionally "
+          "(soft tie) update / __call__ / get_normalized are translated statement by statement on every run and Props/GenMV.lean proves that "
+          "the generated methods take states representing the model's MV to states representing MV.update, with equal get / get_normalized, "
+          "for every sequence of updates from a fresh tracker."),
     design_ref="DESIGN.md section 6, C12", note=TRUST_H + " 'rather than NaN' is decided by the type sweep on the real class (a field has no NaN).",
     technique="Lean 4 theorems over hand model + differential correspondence + numeric-type sweep",
 )
